@@ -222,7 +222,11 @@ func genC07(r *Rng, tier string) *World {
 			continue
 		}
 		cfgs = append(cfgs, c)
-		w.Schemas = append(w.Schemas, GenNode(r, &c, 0, true))
+		sn := GenNode(r, &c, 0, true)
+		if sn.Kind == "struct" && r.P(0.12) {
+			sn = &Node{Kind: "ptr", Req: r.P(0.3), Elem: sn} // a top-level optional record: the pointer node, not the struct, meets the front end's provider
+		}
+		w.Schemas = append(w.Schemas, sn)
 	}
 	nh := 1 + r.Intn(Pick(r, []int{3, 6, 12}))
 	coerceAt := -1
